@@ -43,6 +43,10 @@ impl<'a> WireFormat<'a> for SRV<'a> {
     where
         Self: Sized,
     {
+        if *position + 6 > data.len() {
+            return Err(crate::SimpleDnsError::InsufficientData);
+        }
+
         let priority = u16::from_be_bytes(data[*position..*position + 2].try_into()?);
         let weight = u16::from_be_bytes(data[*position + 2..*position + 4].try_into()?);
         let port = u16::from_be_bytes(data[*position + 4..*position + 6].try_into()?);
